@@ -69,6 +69,30 @@ claim('C08',
       SYS_NOTE, 'TLA+ system specification as exact oracle; TLC validates observations of scaled real runs', '5.7, 6/C08')
 
 
+claim('C02',
+      'TLC evaluates the adjoint identity <w, A v> = <A^T w, v> exactly (OMJudge.tla AdjOK) on observed integer/rational vectors for '
+      'Problem.compute_jacvec_product fwd/rev and, for every group of generated models, run_apply_linear fwd/rev and run_solve_linear '
+      'fwd/rev; the public products are also compared with J v and J^T w from the exact TotalAll of OMModel.tla (JvOK).',
+      SYS_NOTE, 'TLA+ system specification as exact oracle; TLC validates observed operator applications', '5.7, 6/C02')
+
+claim('C24',
+      'OMModel.tla defines RelevantComps (Reach/CoReach over true variable-level dependencies). Generated models with dead branches are '
+      'differentiated with recursing linear solvers and DirectSolver with relevance enabled and disabled (OPENMDAO_NO_RELEVANCE switch): '
+      'TLC judges every block against the exact derivative in both runs and requires that every logged linear solve executed all '
+      'components the specification deems relevant to its seed.',
+      SYS_NOTE + ' Optimizer runs with pre/post-opt grouping and parallel_deriv_color seeds are not covered.',
+      'TLA+ system specification (relevance as graph reachability) + TLC validation of observed solves and totals', '5.7, 6/C24')
+
+claim('C31',
+      'spec/sys/OMProblem.tla: the Problem API over the visible state (digest of all inputs and outputs); read-only calls are UNCHANGED, '
+      'run_model is a function of the visible state. Two instances per generated model run the same mutating calls with different '
+      'random interleavings of read-only calls (compute_totals, jacvec, check_partials/totals fd+cs, total coloring, list_*, get_val); '
+      'TLC validates the merged trace (Functional, ReadOnlyUnchanged).',
+      'Visible state = bytes of root input and output vectors; a derivative check on a model not yet run in its current state is modelled '
+      'as running it first (documented behaviour); read-only calls that raise are counted, not judged.',
+      'TLA+ API state machine + TLC trace validation of recorded executions', '5.7, 6/C31')
+
+
 def main():
     checks = []
     for pid in ALL:
